@@ -218,7 +218,9 @@ IsIntNum(x) ==      \* v == math.Trunc(v)
 \* "und" when the specification cannot compute the shortest form (e # 0).
 NumText(x) ==
   CASE x.k = "fin" ->
-         IF x.e # 0 THEN <<>>
+         IF x.e # 0 THEN (IF \E i \in 1..Len(NearTexts) : NearTexts[i].n = x.n /\ NearTexts[i].s = x.s /\ NearTexts[i].e = x.e
+                          THEN NearTexts[CHOOSE i \in 1..Len(NearTexts) : NearTexts[i].n = x.n /\ NearTexts[i].s = x.s /\ NearTexts[i].e = x.e].t
+                          ELSE <<>>)
          ELSE IF x.s = 0 THEN IntDigits(x.n)
          ELSE IF x.s > 6 THEN <<>>
          ELSE LET a == AbsI(x.n)
